@@ -158,13 +158,11 @@ func (c *VC) buildInputs(o *Obligation, dir string, qual types.Qualifier) (decls
 		case *types.Pointer:
 			reqs = append(reqs, rvReq{key, in.Term})
 			if stt, ok := u.Elem().Underlying().(*types.Struct); ok {
-				ss := c.sortOf(u.Elem())
-				_, h := c.ptrHeap(st, ss)
-				obj := mkSelect(h, in.Term)
+				offs := c.fieldOffsets(stt)
 				for fi := 0; fi < stt.NumFields(); fi++ {
 					ft := stt.Field(fi).Type()
 					if b, ok := ft.Underlying().(*types.Basic); ok && b.Info()&(types.IsInteger|types.IsBoolean) != 0 {
-						reqs = append(reqs, rvReq{fmt.Sprintf("%s.%s", key, stt.Field(fi).Name()), mkField(obj, ss.Fields[fi].Name)})
+						reqs = append(reqs, rvReq{fmt.Sprintf("%s.%s", key, stt.Field(fi).Name()), c.loadAt(st, addrAdd(in.Term, offs[fi]), ft)})
 					}
 				}
 			}
